@@ -1588,7 +1588,8 @@ def flow_class(plan) -> str:
     if plan is None:
         return 'after-unshaped-responses'
     t = {'burst': 'same-burst', 'turn1': 'next-turns', 'turn3': 'next-turns', 'later': 'later'}[plan['timing']]
-    return f"after-{plan.get('resp', '?')}-zero-credits+{plan['nop']}-nop-{t}"
+    # (whether the window was closed by a Command Complete or a Command Status is in the detail: plan['resp'])
+    return f"after-zero-credits+{plan['nop']}-nop-{t}"
 
 
 class FlowShaper:
@@ -1801,7 +1802,7 @@ class FlowDriver(Driver):
             sem = self.host.command_semaphore
             return [(f'wedge:command-never-completes/{flow_class(culprit)}',
                      f'{n} of {len(tasks)} host commands of the history still pending 300 virtual s after the last window '
-                     f're-opening was due; last shaped response before the first stuck one: {culprit and culprit["script"]} '
+                     f're-opening was due; last shaped response ({culprit and culprit.get("resp")}) before the first stuck one: {culprit and culprit["script"]} '
                      f'({culprit and culprit["cmd"]}); command_semaphore locked={sem.locked()} pending_command={self.host.pending_command}')]
         for t, p in tasks:
             self.judge_result(t.result(), p['cmd'] if p else 'HCI_READ_BD_ADDR_COMMAND', bad)
@@ -1911,6 +1912,7 @@ class BrConfigDriver(BrSigDriver):
             if s is None or struct.unpack_from('<H', s[2], 4)[0] != 0:
                 raise HarnessError(f'cannot open a channel for the configuration dialogue: {s}')
             cur['my'], cur['dcid'] = my, struct.unpack_from('<H', s[2], 0)[0]
+        self.closed_by_victim.discard(cur['my'])      # (CIDs are reused: what an earlier channel with this CID did is history)
         self.cur = cur
         # the victim's own Configure Request: answered now, later, or first refused with a counter-proposal
         cur['order'] = rng.choice(['answer-first', 'answer-first', 'answer-last', 'refuse-first'])
@@ -2209,10 +2211,9 @@ class SdpClientDriver(ChannelDriver):
             return closed
         # 1. the peer now answers the outstanding request properly: the call must return
         self.answering = True
+        self.split = None         # (whatever was left of a response in several parts is not served any more)
         try:
             if self.task is not None and not self.task.done():
-                if self.split:
-                    self.split = None
                 if self.req is not None:
                     self.tx_raw(self.good_response(*self.req))
                 try:
